@@ -17,10 +17,7 @@ def outcomeTok {α : Type} : Except PErr α → Option String
   | .error (.crash "UNMODELLED") => none
   | .error _ => some "ERR"
 
-/-- `outside`: the parse ran the body parser of an extension class the cost model does not follow
-(`Cp.Cost.walkExtOutside`); such inputs are reported like the model's own boundary -/
-def costLine {α : Type} (ticks bound : Nat) (r : Except PErr α) (outside : Bool := false) : String :=
-  if outside then "UNMODELLED" else
+def costLine {α : Type} (ticks bound : Nat) (r : Except PErr α) : String :=
   match outcomeTok r with
   | some o => s!"OK {ticks} {bound} {o}"
   | none => "UNMODELLED"
@@ -31,18 +28,16 @@ def costOp : List String → Option String
     match cls with
     | "TlsRecord" => pure (costLine (recordTicks b) recordB (parseRecord b))
     | "TlsHandshakeClientHello" =>
-      pure (costLine (clientHelloTicks b) (clientHelloA * b.length + (clientHelloB + hsHeaderTicks)) (parseClientHello b)
-        (hsFramedOutside 1 clientHelloInnerOutside b))
+      pure (costLine (clientHelloTicks b) (clientHelloA * b.length + (clientHelloB + hsHeaderTicks)) (parseClientHello b))
     | "TlsHandshakeServerHello" =>
-      pure (costLine (serverHelloTicks 2 b) (serverHelloA * b.length + (serverHelloB + hsHeaderTicks)) (parseServerHello 2 b)
-        (hsFramedOutside 2 serverHelloInnerOutside b))
+      pure (costLine (serverHelloTicks 2 b) (serverHelloA * b.length + (serverHelloB + hsHeaderTicks)) (parseServerHello 2 b))
     | "TlsHandshakeCertificate" =>
       pure (costLine (certificateTicks b) (certificatesA * b.length + (certificatesB + hsHeaderTicks)) (parseCertificate b))
     | "TlsHandshakeMessageVariant" =>
       pure (costLine (handshakeVariantTicks b)
         ((Gen.handshakeVariants.length + 1) * (1 + ((clientHelloA + serverHelloA + certificatesA + certificateRequestA) * b.length +
           (clientHelloB + serverHelloB + certificatesB + certificateRequestB + 3 + hsHeaderTicks))))
-        (parseHandshakeVariant b) (handshakeVariantOutside b))
+        (parseHandshakeVariant b))
     | _ => none
   | ["TKCONST"] =>
     some s!"clientHelloA={clientHelloA} clientHelloB={clientHelloB + hsHeaderTicks} serverHelloA={serverHelloA} serverHelloB={serverHelloB + hsHeaderTicks} certificatesA={certificatesA} certificatesB={certificatesB + hsHeaderTicks} recordB={recordB}"
